@@ -54,6 +54,8 @@ pub fn c01(ctx: &Ctx) -> Collector {
     run_space(&col, 14, &spaces::s_cap_families(ctx.tier.thorough()), &p, true, &no_extra);
     run_space(&col, 15, &spaces::s_cross(ctx.tier.thorough()), &p, true, &no_extra);
     run_space(&col, 16, &spaces::s_pair_ctx(ctx.tier.thorough()), &p, true, &no_extra);
+    run_space(&col, 17, &spaces::s_order(ctx.tier.thorough()), &p, true, &no_extra);
+    run_space(&col, 18, &s_len_utf8(ctx.tier.thorough()), &p, true, &no_extra);
     seeded_supplement(ctx, &col, 20, &p, true);
     col
 }
@@ -96,10 +98,20 @@ pub fn c04(ctx: &Ctx) -> Collector {
     run_space(&col, 0, &spaces::s_opt(ctx.tier.thorough()), &p, true, &no_extra);
     run_space(&col, 1, &spaces::s_cell(ctx.tier.thorough()), &p, true, &no_extra);
     run_space(&col, 2, &spaces::s_small(&[None], false), &p, true, &no_extra);
+    run_space(&col, 4, &spaces::s_order(ctx.tier.thorough()), &p, true, &no_extra);
     if ctx.tier.thorough() {
         run_space(&col, 3, &spaces::s_len(Family::Ctr, 7200), &p, true, &no_extra);
     }
     col
+}
+
+/// S_len restricted to byte mode with valid multi-byte UTF-8 text (character count < byte count)
+pub fn s_len_utf8(thorough: bool) -> Space {
+    let mut sp = spaces::s_len_tier(Family::Utf8, 7200, thorough);
+    sp.cases.retain(|c| matches!(c.input, spaces::Input::Fam(_, 2, _)));
+    sp.name = format!("S_len[utf8]{}", if thorough { "" } else { "/quick" });
+    sp.describe = format!("byte mode x 4 levels x {} with valid UTF-8 text of 2-, 3- and 4-byte characters (character count < byte count), version+mask automatic", if thorough { "every length 0..=7200" } else { "lengths 0..=128, all capacity thresholds -1/0/+1, every 7th length" });
+    sp
 }
 
 /// forced-version spaces of C05
@@ -112,7 +124,7 @@ pub fn s_forced_versions(thorough: bool) -> Space {
                     for fv in 1..=40u8 {
                         cases.push(Case {
                             input: spaces::Input::Fam(Family::Ctr, m as u8, len as u32),
-                            opts: Opts { mode: Some(m as u8), ecl: Some(e as u8), version: Some(fv), mask: None },
+                            opts: Opts { mode: Some(m as u8), ecl: Some(e as u8), version: Some(fv), mask: None, order: 0 },
                         });
                     }
                 }
@@ -126,7 +138,7 @@ pub fn s_forced_versions(thorough: bool) -> Space {
                         for fv in fvs {
                             cases.push(Case {
                                 input: spaces::Input::Fam(Family::Ctr, m as u8, len as u32),
-                                opts: Opts { mode: Some(m as u8), ecl: Some(e as u8), version: Some(fv as u8), mask: None },
+                                opts: Opts { mode: Some(m as u8), ecl: Some(e as u8), version: Some(fv as u8), mask: None, order: 0 },
                             });
                         }
                     }
@@ -165,7 +177,7 @@ pub fn s_far_beyond() -> Space {
                     }
                     cases.push(Case {
                         input: spaces::Input::Fam(Family::Ctr, m as u8, len as u32),
-                        opts: Opts { mode: Some(m as u8), ecl: Some(e as u8), version, mask: None },
+                        opts: Opts { mode: Some(m as u8), ecl: Some(e as u8), version, mask: None, order: 0 },
                     });
                 }
             }
@@ -185,6 +197,8 @@ pub fn c05(ctx: &Ctx) -> Collector {
     run_space(&col, 2, &s_far_beyond(), &p, false, &no_extra);
     run_space(&col, 3, &spaces::s_opt(ctx.tier.thorough()), &p, false, &no_extra);
     run_space(&col, 5, &spaces::s_cross(ctx.tier.thorough()), &p, false, &no_extra);
+    run_space(&col, 6, &spaces::s_order(ctx.tier.thorough()), &p, false, &no_extra);
+    run_space(&col, 7, &s_len_utf8(ctx.tier.thorough()), &p, false, &no_extra);
     if ctx.tier.thorough() {
         run_space(&col, 4, &spaces::s_len(Family::Hi, 7200), &p, false, &no_extra);
     }
@@ -208,6 +222,8 @@ pub fn c06(ctx: &Ctx) -> Collector {
     run_space(&col, 14, &spaces::s_cap_families(ctx.tier.thorough()), &p, true, &no_extra);
     run_space(&col, 15, &spaces::s_cross(ctx.tier.thorough()), &p, true, &no_extra);
     run_space(&col, 16, &spaces::s_pair_ctx(ctx.tier.thorough()), &p, true, &no_extra);
+    run_space(&col, 17, &spaces::s_order(ctx.tier.thorough()), &p, true, &no_extra);
+    run_space(&col, 18, &s_len_utf8(ctx.tier.thorough()), &p, true, &no_extra);
     seeded_supplement(ctx, &col, 20, &p, true);
     col
 }
@@ -345,6 +361,8 @@ pub fn c10(ctx: &Ctx) -> Collector {
     run_space(&col, 19, &s_class_patterns(8), &p, false, &no_extra);
     run_space(&col, 21, &spaces::s_pair_ctx(ctx.tier.thorough()), &p, false, &no_extra);
     run_space(&col, 22, &s_long_auto(ctx.tier.thorough()), &p, false, &no_extra);
+    run_space(&col, 23, &spaces::s_order(ctx.tier.thorough()), &p, false, &no_extra);
+    run_space(&col, 24, &s_len_utf8(ctx.tier.thorough()), &p, false, &no_extra);
     seeded_supplement(ctx, &col, 20, &p, false);
     col
 }
